@@ -1388,10 +1388,13 @@ func (c *cluster) followResizeInstruction(instr *ResizeInstruction) error {
 func (c *cluster) markResizeInstructionComplete(complete *ResizeInstructionComplete) error {
 
 	j := c.job(complete.JobID)
+	if j == nil {
+		return fmt.Errorf("resize job %d is not known to this node", complete.JobID)
+	}
 
 	// Abort the job if an error exists in the complete object.
 	if complete.Error != "" {
-		j.result <- resizeJobStateAborted
+		j.signal(resizeJobStateAborted)
 		return errors.New(complete.Error)
 	}
 
@@ -1406,7 +1409,7 @@ func (c *cluster) markResizeInstructionComplete(complete *ResizeInstructionCompl
 	j.IDs[complete.Node.ID] = true
 
 	if !j.nodesArePending() {
-		j.result <- resizeJobStateDone
+		j.signal(resizeJobStateDone)
 	}
 
 	return nil
@@ -1462,7 +1465,9 @@ func newResizeJob(existingNodes []*Node, node *Node, action string) *resizeJob {
 		ID:     rand.Int63(),
 		IDs:    ids,
 		action: action,
-		result: make(chan string),
+		// One slot: the coordinator consumes a single result per job, and
+		// whoever reports it must never block (see signal).
+		result: make(chan string, 1),
 		Logger: logger.NopLogger,
 	}
 }
@@ -1484,20 +1489,31 @@ func (j *resizeJob) run() error {
 	// Job can be considered done in the case where it doesn't require any action.
 	if !j.nodesArePending() {
 		j.Logger.Printf("resizeJob contains no pending tasks; mark as done")
-		j.result <- resizeJobStateDone
+		j.signal(resizeJobStateDone)
 		return nil
 	}
 
 	j.Logger.Printf("distribute tasks for resizeJob")
 	err := j.distributeResizeInstructions()
 	if err != nil {
-		j.result <- resizeJobStateAborted
+		j.signal(resizeJobStateAborted)
 		return errors.Wrap(err, "distributing instructions")
 	}
 	return nil
 }
 
 // isComplete return true if the job is any one of several completion states.
+// signal reports the job's outcome to the coordinator, which waits for
+// exactly one result per job. It never blocks: the first result is kept in
+// the channel's single slot and duplicate, late or post-abort reports are
+// dropped instead of stalling the message handler that delivers them.
+func (j *resizeJob) signal(state string) {
+	select {
+	case j.result <- state:
+	default:
+	}
+}
+
 func (j *resizeJob) isComplete() bool {
 	switch j.state {
 	case resizeJobStateDone, resizeJobStateAborted:
